@@ -16,6 +16,22 @@ type TypeInfo struct {
 	PkgPath string
 }
 
+// DeclaringPackage returns the package whose package-level declaration the named
+// type is, or nil for builtin types and for types declared inside a function body.
+// Annotations are keyed by (package path, type name) and only exist on package-level
+// declarations: a function-local "type T ..." that merely shares the name of an
+// annotated package-level T is a different, unannotated type
+func DeclaringPackage(named *types.Named) *types.Package {
+	obj := named.Obj()
+	if obj == nil || obj.Pkg() == nil {
+		return nil
+	}
+	if obj.Parent() != nil && obj.Parent() != obj.Pkg().Scope() {
+		return nil
+	}
+	return obj.Pkg()
+}
+
 // ExtractTypeInfo extracts type name and package path from a types.Type
 // Returns nil if the type is not a named type or has no package
 func ExtractTypeInfo(t types.Type) *TypeInfo {
@@ -35,7 +51,7 @@ func ExtractTypeInfo(t types.Type) *TypeInfo {
 	}
 
 	typeName := named.Obj().Name()
-	pkg := named.Obj().Pkg()
+	pkg := DeclaringPackage(named)
 	if pkg == nil {
 		return nil
 	}
